@@ -324,6 +324,13 @@ Proof.
   - exact I.
 Qed.
 
+(** A line of any shape: the field count is checked before the conversion. *)
+Lemma fai_line_total_gen conv text : safe (fai_line conv text).
+Proof.
+  unfold fai_line. destruct (negb (zlen (split_on 9 text) =? 5)) eqn:E; [exact I|].
+  apply negb_false_iff, Z.eqb_eq in E. apply fai_record_total_gen. exact E.
+Qed.
+
 Lemma recover_ok {A} (o : outcome A) r : recover_parse_error o = Ok r -> o = Ok r.
 Proof.
   intros H. destruct o as [a|e|w|]; try exact H; try discriminate.
